@@ -74,6 +74,9 @@ func TestC17Worker(t *testing.T) {
 	for j := 0; j < n; j++ {
 		var err error
 		k := c17ProcKind(kind, j)
+		if first == "" && k == "ann" {
+			k = "ref" // the writers race to create the log: nothing to annotate yet
+		}
 		switch k {
 		case "ref":
 			err = rsl.NewReferenceEntry(c17ProcRefName(w, j), h(ids[(w+j)%4])).Commit(repo, false)
@@ -111,8 +114,12 @@ func runC17ProcOnce(t *testing.T, s *kit.Session, c c17ProcCase) *kit.Failure {
 		}
 	}
 	before, err := kit.WalkChain(st, kit.RSLRef)
-	if err != nil || len(before) == 0 {
-		return &kit.Failure{Cause: "harness", Msg: fmt.Sprintf("prefix chain: %v", err)}
+	if err != nil || len(before) != c.Prefix {
+		return &kit.Failure{Cause: "harness", Msg: fmt.Sprintf("prefix chain: %d entries, %v", len(before), err)}
+	}
+	firstID := ""
+	if len(before) > 0 {
+		firstID = before[0].ID
 	}
 	var ids []string
 	for _, id := range pool.IDs {
@@ -130,7 +137,7 @@ func runC17ProcOnce(t *testing.T, s *kit.Session, c c17ProcCase) *kit.Failure {
 			defer wg.Done()
 			cmd := exec.Command(bin, "-test.run", "^TestC17Worker$", "-test.v")
 			cmd.Env = append(os.Environ(), "VERIF_C17_DIR="+st.Dir, "VERIF_C17_WORKER="+strconv.Itoa(w), "VERIF_C17_OPS="+strconv.Itoa(c.Ops),
-				"VERIF_C17_KIND="+c.Kinds[w%len(c.Kinds)], "VERIF_C17_IDS="+strings.Join(ids, ","), "VERIF_C17_FIRST="+before[0].ID, "VERIF_OUT=", "VERIF_REPLAY=")
+				"VERIF_C17_KIND="+c.Kinds[w%len(c.Kinds)], "VERIF_C17_IDS="+strings.Join(ids, ","), "VERIF_C17_FIRST="+firstID, "VERIF_OUT=", "VERIF_REPLAY=")
 			var out bytes.Buffer
 			cmd.Stdout, cmd.Stderr = &out, &out
 			done := make(chan error, 1)
@@ -246,6 +253,9 @@ func runC17ProcOnce(t *testing.T, s *kit.Session, c c17ProcCase) *kit.Failure {
 		}
 	}
 	classes := []string{"process_mode", fmt.Sprintf("proc_workers_%d", c.Workers)}
+	if c.Prefix == 0 {
+		classes = append(classes, "proc_writers_create_the_log")
+	}
 	if nErr > 0 {
 		classes = append(classes, "proc_some_op_failed")
 	}
@@ -269,12 +279,21 @@ func runC17ProcOnce(t *testing.T, s *kit.Session, c c17ProcCase) *kit.Failure {
 	return nil
 }
 
-func genC17Proc(maxWorkers, maxOps int) func(rt *rapid.T) c17ProcCase {
-	return func(rt *rapid.T) c17ProcCase { return genC17ProcN(rt, maxWorkers, maxOps) }
+func genC17Proc(maxWorkers, maxOps int, emptyLog bool) func(rt *rapid.T) c17ProcCase {
+	return func(rt *rapid.T) c17ProcCase {
+		c := genC17ProcN(rt, maxWorkers, maxOps)
+		if emptyLog {
+			c.Prefix = 0 // the writers race to create the log
+			if c.Workers < 3 {
+				c.Workers = 3
+			}
+		}
+		return c
+	}
 }
 
 func genC17ProcN(rt *rapid.T, maxWorkers, maxOps int) c17ProcCase {
-	c := c17ProcCase{Workers: rapid.IntRange(2, maxWorkers).Draw(rt, "workers"), Ops: rapid.IntRange(3, maxOps).Draw(rt, "ops"), Prefix: rapid.IntRange(1, 3).Draw(rt, "prefix")}
+	c := c17ProcCase{Workers: rapid.IntRange(2, maxWorkers).Draw(rt, "workers"), Ops: rapid.IntRange(3, maxOps).Draw(rt, "ops"), Prefix: rapid.IntRange(0, 3).Draw(rt, "prefix")}
 	for w := 0; w < c.Workers; w++ {
 		c.Kinds = append(c.Kinds, rapid.SampledFrom([]string{"ref", "ref", "ann", "prop", "mixed", "mixed"}).Draw(rt, "kind"))
 	}
